@@ -4,13 +4,19 @@
    Vocabulary: isR x r = "x is the finite binary64 whose exact value is the real r";
    lonplane h k / altplane v k / rowlat h k = the float the code computes for column boundary k, level k, row boundary k;
    lonR h k = k*360/2^h - 180, altR v k = k*2^25/2^v (real numbers);
-   lat_hyp i = the oracle's two row-boundary latitudes of i are stored by NewPoint inside the limit and south < north (validated at run time). *)
+   lat_hyp i = the oracle's two row-boundary latitudes of i are stored by NewPoint inside the limit and south < north. This is a hypothesis on
+   the oracle: for Go's math.Sinh/Atan it is NOT proved for any ID, only observed at run time on every sampled ID (check_vertices) and certified
+   per sample by the latcert step; the Examples at the end show it is satisfiable with a toy oracle. Theorems that need it say so.
+   Latitude VALUES are not the subject of any theorem about the float code: the real-side theorems (mfrac, mlat, row, rowedge) speak about the
+   real formulas only and are tied to the code per sample (latcert), the dispatch checkers tie the reported latitudes to their rows through the
+   library's own row formula (check_rows) and to each other (check_centre_lat). *)
 From Coq Require Import ZArith Reals String List Floats Lia.
 From SID Require Import Base Str Ids F64 PointF VertexF VxBridge West VertexCheck VertexProofs MercatorR.
 Import ListNotations.
 Open Scope Z_scope.
 
-(* (1) eight corners, documented order NW NE SE SW at the bottom then at the top, for all inputs and all oracles (pure list structure) ... *)
+(* (1) eight corners, documented order NW NE SE SW at the bottom then at the top, for all inputs and all oracles. This one is the model's
+   definition unfolded (proof: reflexivity); it records how the clamp of the row and the wrap of the column enter. The content is in the next theorem ... *)
 Theorem C02_corner_order_all_inputs : forall m_sinh m_atan h x y alt res,
   vertices m_sinh m_atan h x y alt res =
   box_corners (west_of (xwrap h x) (pow2f h)) (east_of (xwrap h x) (pow2f h))
@@ -49,7 +55,31 @@ Theorem C02_shared_faces_bit_identical : forall m_sinh m_atan i axis, valid i ->
 Proof. exact shared_faces_identical. Qed.
 Print Assumptions C02_shared_faces_bit_identical.
 
-(* ... hence no gaps and no overlaps: on each axis the planes cut the documented range into half-open cells and every coordinate lies in exactly one *)
+(* the antimeridian: column boundary 2^h is the float +180, column boundary 0 is the float -180 (same meridian, two names) ... *)
+Theorem C02_antimeridian_planes : forall h, 0 <= h <= 35 -> lonplane h (2 ^ h) = 180%float /\ lonplane h 0 = (-180)%float.
+Proof. exact antimeridian_planes. Qed.
+Print Assumptions C02_antimeridian_planes.
+(* ... so the face between the last column and column 0 (axis 3; at zoom 0 the voxel and itself) is reported as +180 on one side and -180 on the
+   other, with bit-identical latitude and altitude; any oracle. The coordinate is NOT the same number on both sides: the property's
+   "same coordinate" holds there only modulo 360 *)
+Theorem C02_antimeridian_face : forall m_sinh m_atan i, valid i -> ex i = 2 ^ eh i - 1 ->
+  shared_spec 3 (vertices_of m_sinh m_atan i) (vertices_of m_sinh m_atan (neighbour 3 i)).
+Proof. exact antimeridian_face. Qed.
+Print Assumptions C02_antimeridian_face.
+
+(* ... hence no gaps and no overlaps on the longitude and altitude axes: the planes THE CODE COMPUTES cut the documented range into half-open
+   cells [plane k, plane k+1) and every real coordinate lies in exactly one *)
+Theorem C02_longitude_tiling_on_computed_planes : forall h lon, 0 <= h <= 35 -> (-180 <= lon < 180)%R ->
+  exists! k, 0 <= k < 2 ^ h /\ (FR (lonplane h k) <= lon < FR (lonplane h (k + 1)))%R.
+Proof. exact lon_tiling_float. Qed.
+Print Assumptions C02_longitude_tiling_on_computed_planes.
+Theorem C02_altitude_tiling_on_computed_planes : forall v a, 0 <= v <= 35 -> (- IZR (2 ^ 25) <= a < IZR (2 ^ 25))%R ->
+  exists! f, - 2 ^ v <= f < 2 ^ v /\ (FR (altplane v f) <= a < FR (altplane v (f + 1)))%R.
+Proof. exact alt_tiling_float. Qed.
+Print Assumptions C02_altitude_tiling_on_computed_planes.
+(* the same partitions for the real-number planes (no float, no code); the latitude one is REAL SIDE ONLY: cells are (south, north], closed on the
+   north side, for latitudes whose Mercator fraction is in [0,1); nothing is proved about the reported (truncated) edge latitudes tiling — that
+   would need south < north for all 2^h rows of the oracle, which is only sampled *)
 Theorem C02_longitude_tiling : forall h lon, 0 <= h -> (-180 <= lon < 180)%R ->
   exists! k, 0 <= k < 2 ^ h /\ (lonR h k <= lon < lonR h (k + 1))%R.
 Proof. exact lon_tiling. Qed.
@@ -63,18 +93,28 @@ Theorem C02_latitude_tiling_real : forall h phi, 0 <= h -> (- (PI / 2) < phi < P
 Proof. exact lat_tiling. Qed.
 Print Assumptions C02_latitude_tiling_real.
 
-(* (4) the centre query returns the midpoint: exact on longitude and altitude, the float midpoint of the two stored latitudes *)
+(* (4) the centre query returns the midpoint: exact on longitude and altitude. The latitude component is the model's own expression (midpoint in
+   degrees of the two stored edge latitudes, truncated again) — as a relation between observed values it is decided at run time (check_centre_lat) *)
 Theorem C02_centre_is_midpoint : forall m_sinh m_atan i, valid i -> lat_hyp m_sinh m_atan i -> centre_lat_hyp m_sinh m_atan i ->
   centre_of m_sinh m_atan i = mkp (clonf (eh i) (ex i)) (setlat_trunc (centre_lat m_sinh m_atan i)) (caltf (ev i) (ef i)) /\
   isR (clonf (eh i) (ex i)) (clonR (eh i) (ex i)) /\ isR (caltf (ev i) (ef i)) (caltR (ev i) (ef i)).
 Proof. exact centre_explicit. Qed.
 Print Assumptions C02_centre_is_midpoint.
 
-(* round trip on two axes, every valid ID at every zoom, no bound: the column and the vertical index of the centre are x and f *)
-Theorem C02_centre_roundtrip_lon_alt : forall m_sinh m_atan i, valid i -> lat_hyp m_sinh m_atan i -> centre_lat_hyp m_sinh m_atan i ->
-  x_f (plon (centre_of m_sinh m_atan i)) (eh i) = Some (ex i) /\ f_f (palt (centre_of m_sinh m_atan i)) (ev i) = Some (ef i).
-Proof. exact centre_roundtrip_two_axes. Qed.
-Print Assumptions C02_centre_roundtrip_lon_alt.
+(* round trip, longitude half: the column of the centre is x for every valid ID at every zoom and EVERY oracle (no latitude hypothesis:
+   NewPoint stores the longitude before it looks at the latitude) *)
+Theorem C02_centre_roundtrip_longitude : forall m_sinh m_atan i, valid i ->
+  x_f (plon (centre_of m_sinh m_atan i)) (eh i) = Some (ex i).
+Proof. exact centre_roundtrip_longitude. Qed.
+Print Assumptions C02_centre_roundtrip_longitude.
+(* round trip, altitude half: the vertical index of the centre is f for every valid ID at every zoom, provided NewPoint accepts the three
+   latitudes involved (the library ignores NewPoint's error, and an ignored latitude error stores altitude 0) — oracle hypothesis, run-time validated *)
+Theorem C02_centre_roundtrip_altitude : forall m_sinh m_atan i, valid i ->
+  lat_acc (rowlat m_sinh m_atan (eh i) (ey i)) = true -> lat_acc (rowlat m_sinh m_atan (eh i) (ey i + 1)) = true ->
+  lat_acc (centre_lat_raw m_sinh m_atan i) = true ->
+  f_f (palt (centre_of m_sinh m_atan i)) (ev i) = Some (ef i).
+Proof. exact centre_roundtrip_altitude. Qed.
+Print Assumptions C02_centre_roundtrip_altitude.
 
 (* PARTIAL: the ID of the centre is the original ID up to the row, which comes from the oracle (math.Log/Tan/Cos of the truncated
    midpoint latitude); missing: row = y for the float code — validated at run time on every sampled ID (CentreRoundTrip) *)
@@ -127,7 +167,9 @@ Theorem C02_api_spatial_id_same_voxel : forall m_sinh m_atan i o, valid i -> ev 
 Proof. exact api_sid_valid. Qed.
 Print Assumptions C02_api_spatial_id_same_voxel.
 
-(* the run-time checkers applied to the implementation's output decide exactly the specifications *)
+(* the run-time checkers applied to the implementation's output decide exactly the specifications. vertices_spec / centre_spec fix longitude and
+   altitude exactly but, on latitude, only the pattern (four equal north, four equal south, south < north, inside the limit); the latitude values
+   are constrained by rows_spec (through a row function) and by the centre-latitude relation *)
 Theorem C02_exact_reference_sound : forall f n k, 0 <= k -> dy_eq f n k = true <-> isR f (IZR n / IZR (2 ^ k)).
 Proof. exact dy_eq_spec. Qed.
 Print Assumptions C02_exact_reference_sound.
@@ -141,6 +183,13 @@ Theorem C02_shared_face_checker_sound : forall axis a b, check_shared axis a b =
 Proof. exact check_shared_sound. Qed.
 Print Assumptions C02_shared_face_checker_sound.
 
+Theorem C02_row_checker_sound : forall rowf i ps, check_rows rowf i ps = true <-> rows_spec rowf i ps.
+Proof. exact check_rows_sound. Qed.
+Print Assumptions C02_row_checker_sound.
+Theorem C02_centre_latitude_checker_sound : forall n s c, check_centre_lat n s c = true <->
+  (s <? c)%float = true /\ (c <? n)%float = true /\ c = setlat_trunc ((n + s) / 2)%float.
+Proof. exact check_centre_lat_sound. Qed.
+Print Assumptions C02_centre_latitude_checker_sound.
 Theorem C02_roundtrip_checker_sound : forall i back, check_roundtrip i back = true <-> back = print_eid i.
 Proof. exact check_roundtrip_sound. Qed.
 Print Assumptions C02_roundtrip_checker_sound.
@@ -161,8 +210,14 @@ Qed.
 Example C02_nonvacuous_zoom35 :
   let i := mk 35 (2 ^ 35 - 1) (2 ^ 35 - 1) 35 (- 2 ^ 35) in
   valid i /\ lat_hyp toy_sinh toy_atan i /\ centre_lat_hyp toy_sinh toy_atan i /\
+  lat_acc (centre_lat_raw toy_sinh toy_atan i) = true /\
   x_f (plon (centre_of toy_sinh toy_atan i)) 35 = Some (2 ^ 35 - 1) /\ f_f (palt (centre_of toy_sinh toy_atan i)) 35 = Some (- 2 ^ 35).
 Proof.
   cbv zeta. split; [unfold valid; cbn; lia|]. split; [repeat split; vm_compute; reflexivity|].
-  split; [vm_compute; reflexivity|]. split; vm_compute; reflexivity.
+  split; [vm_compute; reflexivity|]. split; [vm_compute; reflexivity|]. split; vm_compute; reflexivity.
 Qed.
+(* the antimeridian pair at zoom 2 and the voxel of zoom 0 with itself pass the checker *)
+Example C02_nonvacuous_antimeridian :
+  check_shared 3 (vertices_of toy_sinh toy_atan (mk 2 3 1 0 0)) (vertices_of toy_sinh toy_atan (mk 2 0 1 0 0)) = true /\
+  check_shared 3 (vertices_of toy_sinh toy_atan (mk 0 0 0 0 (-1))) (vertices_of toy_sinh toy_atan (mk 0 0 0 0 (-1))) = true.
+Proof. split; vm_compute; reflexivity. Qed.
